@@ -41,6 +41,13 @@ def install():
     for k in ("OMP_NUM_THREADS", "OPENBLAS_NUM_THREADS", "MKL_NUM_THREADS"):
         os.environ.setdefault(k, "1")
     uuid.uuid4 = _uuid4
+    import warnings
+
+    warnings.simplefilter("ignore")
+    np.seterr(all="ignore")
+    import logging
+
+    logging.disable(logging.CRITICAL)
     import gzip
     import tarfile
     import zipfile
